@@ -232,6 +232,58 @@ def param_root(roots):
     return None
 
 
+def _tuple_field_of(b, op, depth=0):
+    """(tuple local, field index) when the operand is - through moves, reborrows and clones - a field of a local tuple"""
+    for _ in range(10):
+        pl = core.op_place(op)
+        if pl is None:
+            return None
+        fs = [e for e in pl["proj"] if e["k"] == "field"]
+        if fs and b.local_ty(pl["local"]).startswith("("):
+            return (pl["local"], fs[0]["idx"])
+        if fs:
+            return None
+        ds = b.defs().get(pl["local"], [])
+        if len(ds) != 1:
+            return None
+        d = ds[0]
+        if d[0] == "assign":
+            rv = d[3]["rv"]
+            if rv["k"] == "use":
+                op = rv["op"]
+                continue
+            if rv["k"] in ("ref", "copyforderef"):
+                op = {"k": "copy", "place": rv["place"]}
+                continue
+            return None
+        if d[0] == "call" and callee_name(d[2]) in ("clone", "deref", "borrow", "as_ref") and d[2]["args"]:
+            op = d[2]["args"][0]
+            continue
+        return None
+    return None
+
+
+def _tuple_select(b, a0, a1):
+    """list of (param feeding arg0, param feeding arg1) over all definitions of the pair both arguments are taken from"""
+    f0, f1 = _tuple_field_of(b, a0), _tuple_field_of(b, a1)
+    if f0 is None or f1 is None or f0[0] != f1[0] or {f0[1], f1[1]} != {0, 1}:
+        return None
+    T = f0[0]
+    out = []
+    ds = b.defs().get(T, [])
+    if not ds or b.partial_defs().get(T):
+        return None
+    for d in ds:
+        if d[0] != "assign" or d[3]["rv"]["k"] != "aggregate" or len(d[3]["rv"]["ops"]) != 2:
+            return None
+        tr = Tracer(b)
+        ps = [param_root(tr.roots_of_operand(o)) for o in d[3]["rv"]["ops"]]
+        if None in ps:
+            return None
+        out.append((ps[f0[1]], ps[f1[1]]))
+    return out
+
+
 def check_forwarder(facts, b, calls, res, findings):
     fam = family_of(b)
     targets = []
@@ -246,6 +298,17 @@ def check_forwarder(facts, b, calls, res, findings):
             continue
         r0 = param_root(tr.roots_of_operand(args[0]))
         r1 = param_root(tr.roots_of_operand(args[1]))
+        if r0 is None or r1 is None:
+            # `let (a, b) = if c { (self, other) } else { (other, self) }; a.op(b)`: judge each way of filling the pair
+            sel = _tuple_select(b, args[0], args[1])
+            if sel is not None:
+                pairs = set(sel)
+                if pairs <= {(1, 2), (2, 1)} and (fam in COMMUTATIVE or pairs == {(1, 2)}):
+                    res.ok("R2-forward", key, {"operands": "selected pair", "orders": sorted(pairs)})
+                    continue
+                if pairs <= {(1, 2), (2, 1)}:
+                    findings.append(Finding("R2-operand-swap", key, "non-commutative operator %s forwards to `%s` with its operands swapped on one path of an operand selection" % (fam, tgt), b, t["span"]["line"], detail={"macros": core.span_macros(t)}))
+                    continue
         if r0 is None or r1 is None:
             findings.append(
                 Finding(
